@@ -205,15 +205,18 @@ PROPS = {
     },
     'C14': {
         'race_driver': True,
-        'ops': [('alias', 400, 20000), ('aggregate', 500, 20000), ('guess', 60, 2000), ('sigops', 300, 10000)],
-        'corr': ['corr:alias', 'corr:panic'],
+        'ops': [('alias', 400, 20000), ('aggregate', 500, 20000), ('guess', 60, 2000), ('sigops', 300, 10000), ('pp', 40, 1500)],
+        'corr': ['corr:alias', 'corr:panic', 'corr:pp-internal-hook-unavailable'],
         'prop': ['C14'],
-        'nontrivial': ['ops='],
+        'nontrivial': ['ops=', 'rendered-twice'],
         'input_fields': 3,
         'rule': 'hand-built snapshots (with spare capacity in Values/Calls/Processed slices and pre-rendered Processed strings) x random sequences of up to 8 operations among '
                 'Aggregate at the four levels (+ Args.String of every bucket call), Aggregated.ToHTML, Snapshot.ToHTML, Args.String of every snapshot call; checked: deep equality of the snapshot before/after, '
                 'len/cap of every reachable slice unchanged, re-aggregation equals the first aggregation; the alias graph (which bucket slices share a backing array with which snapshot slices, via unsafe.SliceData) '
-                'must equal the one the tagged model predicts; thorough adds a go run -race driver',
+                'must equal the one the tagged model predicts; thorough adds a go run -race driver; '
+                'pp (hook internal/verif_hooks.go + internal/verifcmd, tag verif): the text renderer of the pp command (processInner: Aggregate + bucket rendering, or goroutine by goroutine for a race report) '
+                'run three times on every snapshot of generated streams, with a filter, a match expression and none: the snapshot must stay deep-equal to a fresh parse of the same stream and later renderings '
+                'must equal those of the fresh parse',
     },
     'C19': {
         'extra_props': ['C19b', 'C19c'],
